@@ -6,7 +6,7 @@ from . import core, gen, trees
 from .decomp import decompose
 
 ERRNO = {"EIO": 5, "ENOSPC": 28, "EACCES": 13, "EXDEV": 18, "EROFS": 30, "EMFILE": 24, "EDQUOT": 122, "ENOENT": 2, "EPERM": 1,
-         "EEXIST": 17, "EINTR": 4, "EBUSY": 16, "ENAMETOOLONG": 36, "ETXTBSY": 26, "ENOTEMPTY": 39, "EISDIR": 21, "EPIPE": 32}
+         "EEXIST": 17, "EINTR": 4, "EBUSY": 16, "ENAMETOOLONG": 36, "ETXTBSY": 26, "ENOTEMPTY": 39, "EISDIR": 21, "EPIPE": 32, "EAGAIN": 11, "ETIMEDOUT": 110}
 
 
 class Project:
